@@ -626,6 +626,38 @@ def dump_union(name, osel, v, s):
         exp = obj if owner in (int, str, type(None)) else (TAG_OF[owner], v)
         if r[1] != exp: return False
     return True
+
+# a union that has a Literal case: only the listed values (same type) go to the literal dumper, every other object is dumped by its class,
+# also when it compares equal to a listed value (Decimal(200) == 200, Fraction(1) == 1, 1.0 == 1, IntEnum member == Decimal)
+import enum as _enum, base64
+from decimal import Decimal as _Dec
+from fractions import Fraction as _Frac
+class _ULevel(_enum.IntEnum):
+    LOW = 1
+    HIGH = 2
+UL_TYPES = {"lit_dec": Union[Literal[200, 300], _Dec], "lit_frac": Union[Literal[1, 2], _Frac], "lit_enum_dec": Union[Literal[_ULevel.LOW], _Dec],
+            "lit_str_dec": Union[Literal["1", 2], _Dec, bytes], "dec_lit": Union[_Dec, Literal[200, 300]], "lit_float": Union[Literal[1, 2], float, _Dec]}
+UL_RS = {dt: Retort(debug_trail=dt) for dt in DT_MODES}
+UL_DD = {(n, dt): r.get_dumper(t) for n, t in UL_TYPES.items() for dt, r in UL_RS.items()}
+UL_POOL = (200, 300, 1, 2, "1", _Dec(200), _Dec(201), _Dec(1), _Dec(2), _Dec("NaN"), _Dec("sNaN"), _Frac(1), _Frac(2), _Frac(1, 2), 1.0, 2.0, 0.5, b"1", _ULevel.LOW)
+def dump_union_literal(name, di):
+    d = UL_POOL[pick(di, len(UL_POOL))]
+    members = typing.get_args(UL_TYPES[name])
+    lit_cases = [c for m in members if typing.get_origin(m) is Literal for c in typing.get_args(m)]
+    classes = [m for m in members if typing.get_origin(m) is not Literal]
+    listed = any(type(d) is type(c) and d == c for c in lit_cases if not (isinstance(d, _Dec) and d.is_snan()))
+    for dt in DT_MODES:
+        r = run(UL_DD[(name, dt)], d)
+        if listed:
+            exp = d.value if isinstance(d, _enum.Enum) else d
+        elif type(d) in classes:
+            exp = str(d) if type(d) in (_Dec, _Frac) else (base64.b64encode(d).decode() if type(d) is bytes else d)
+        else:
+            if r[0] and r[1] is not d and not isinstance(d, (_Dec, _Frac)): return False
+            if r[0] and isinstance(d, (_Dec, _Frac)): return False           # a Decimal / Fraction that no case covers is never passed through as is
+            continue
+        if not r[0] or type(r[1]) is not type(exp) or r[1] != exp: return False
+    return True
 '''
 
 
@@ -646,4 +678,7 @@ def l2_dump_module(prop: str, tier: str) -> Module:
         m.ob(f"dump_union_{name}", "osel: int, v: int, s: str", f"return dump_union({name!r}, osel, v, s)", pre=["0 <= osel <= 10", "len(s) <= 1"],
              timeout=tmo, family=fam,
              bounds="object of 8 classes (3-level hierarchy, siblings, subclass-of-subclass, unrelated) or int / str / None; union case order both ways; payload symbolic")
+    for name in ["lit_dec", "lit_frac", "lit_enum_dec", "lit_str_dec", "dec_lit", "lit_float"]:
+        m.ob(f"dump_union_literal_{name}", "di: int", f"return dump_union_literal({name!r}, di)", pre=["0 <= di < 19"], timeout=tmo, family=fam,
+             bounds="union with a Literal case next to Decimal / Fraction / float / bytes: 19 pooled objects incl. values equal to a listed one but of another class, NaN, sNaN; 3 debug modes")
     return m
